@@ -85,7 +85,12 @@ def find_counterexample(group, failure, finder_tasks, log):
             except Exception:
                 grid = None
         for m in ([grid] if grid else []) + [model]:
-            r = try_confirm(group, size, m)
+            if hasattr(group, 'relations'):
+                from .relational import confirm_relational
+                rname = failure['subgoals'][0].split('.')[0]
+                r = confirm_relational(group, size, rname, m)
+            else:
+                r = try_confirm(group, size, m)
             if r['verdict'] in ('violation', 'mismatch'):
                 r['size'] = list(size)
                 return r['verdict'], r
@@ -189,21 +194,27 @@ def check_property(pid, tier, cache=True, only_groups=None):
                         conf['obligation'] = f['subgoals']
                         break
             if verdict == 'none' and grp.strength == 'P':
-                # retry the undischarged obligations alone with a longer budget before searching
-                still = []
-                for f in g['failed']:
-                    r = solve.solve_job(dict(name=f['job'], smt=f['smt'], timeout_ms=120000, portfolio=True, cache=False))
-                    if r['result'] != 'unsat':
-                        f['result'], f['reason'] = r['result'], r.get('reason')
-                        still.append(f)
-                    else:
-                        g['discharged'] += len(f['subgoals'])
-                g['failed'] = still
-                if not still:
-                    continue
+                # 1. bounded search for a failing input (fast, definite models)
                 verdict, conf = run_finder(grp, known_by_group.get(gn, ()), log)
                 if conf is not None:
-                    conf['obligation'] = still[0]['subgoals']
+                    conf['obligation'] = g['failed'][0]['subgoals']
+                if verdict == 'none':
+                    # 2. no input found: retry the undischarged obligations (in parallel, longer budget, portfolio)
+                    #    before anything is reported - a loaded machine must not flip a verdict
+                    jobs = [dict(name=f['job'], smt=f['smt'], timeout_ms=90000, portfolio=True, cache=False) for f in g['failed'][:64]]
+                    res = {r['name']: r for r in solve.pool().imap_unordered(solve.solve_job, jobs)}
+                    still = []
+                    for f in g['failed']:
+                        r = res.get(f['job'])
+                        if r is not None and r['result'] == 'unsat':
+                            g['discharged'] += len(f['subgoals'])
+                        else:
+                            if r is not None:
+                                f['result'], f['reason'] = r['result'], r.get('reason')
+                            still.append(f)
+                    g['failed'] = still
+                    if not still:
+                        continue
             first = g['failed'][0]
             path = replay_path(pid, first['job'])
             if verdict == 'mismatch':
@@ -211,8 +222,9 @@ def check_property(pid, tier, cache=True, only_groups=None):
                 crashes.append((gn, 'encoding disagrees with CPython on a replayed input: %s' % path))
                 continue
             if verdict == 'violation':
-                write_json(path, dict(property=pid, group=gn, kind='kernel', obligation=conf.get('obligation'),
+                write_json(path, dict(property=pid, group=gn, kind='relational' if conf.get('relation') else 'kernel', obligation=conf.get('obligation'),
                                       size=conf.get('size'), values=conf['values'], failed_clauses=conf['failed'],
+                                      relation=conf.get('relation'), aux=conf.get('aux'), calls=conf.get('calls'),
                                       real=conf['real'], exact=conf['exact'],
                                       solver_output=dict(result=first['result'], backend=first.get('backend'))))
                 violations.append((gn, (conf.get('obligation') or ['?'])[0], path,
@@ -329,6 +341,27 @@ def replay_file(path):
         c.known = ()
         r = confirm.confirm(c, tuple(d['size']), d['values'], compiled_standin=c.rel.endswith('.pyx'))
         print(json.dumps(dict(verdict=r['verdict'], failed=r.get('failed'), real=r.get('real'), exact=r.get('exact')), default=str)[:3000])
+        if r['verdict'] == 'violation':
+            print("VIOLATION property=%s replay=%s" % (d['property'], os.path.relpath(path, HERE)))
+            return 1
+        return 0
+    if d.get('kind') == 'relational':
+        from .relational import confirm_relational
+        grp = GROUPS[d['group']]
+        model = {}
+        ctx = grp.contract.setup('B', tuple(d['size']))[2]
+        for p_, dsc in ctx.inputs.items():
+            v = d['values'].get(p_)
+            if dsc[0] == 'array':
+                for k_, x in enumerate(v):
+                    model["%s_%d" % (dsc[1], k_)] = repr(__import__('fractions').Fraction(x))
+            elif dsc[0] == 'real':
+                model[dsc[1]] = repr(__import__('fractions').Fraction(v))
+        for k_, x in (d.get('aux') or {}).items():
+            model[k_] = repr(__import__('fractions').Fraction(x))
+        model = {k_: v.replace('Fraction(', '').replace(')', '').replace(', ', '/') for k_, v in model.items()}
+        r = confirm_relational(grp, tuple(d['size']), d['relation'], model)
+        print(json.dumps(dict(verdict=r['verdict'], failed=r.get('failed'), real=r.get('real')), default=str)[:3000])
         if r['verdict'] == 'violation':
             print("VIOLATION property=%s replay=%s" % (d['property'], os.path.relpath(path, HERE)))
             return 1
